@@ -162,3 +162,13 @@ package tcp
 //@   ensures implies(r.rcvAcc == r.rcvNxt, result == (segLen == 0 && segSeq == r.rcvNxt))
 //@   ensures implies(r.rcvAcc != r.rcvNxt && segLen == 0, result == (segSeq - r.rcvNxt < r.rcvAcc - r.rcvNxt))
 //@   ensures implies(r.rcvAcc != r.rcvNxt && segLen > 0 && uint64(r.rcvAcc - r.rcvNxt) + uint64(segLen) <= 0x80000000, result == (segSeq - r.rcvNxt < r.rcvAcc - r.rcvNxt || r.rcvNxt - segSeq < seqnum.Value(segLen)))
+
+// After trimming, every remaining SACK block ends after rcvNxt and does not start before it
+// (both in serial-number order), and the list only shrinks.
+//@ func TrimSACKBlockList props C14 C02
+//@   requires sack != nil && 0 <= sack.NumBlocks && sack.NumBlocks <= MaxSACKBlocks
+//@   ensures 0 <= sack.NumBlocks && sack.NumBlocks <= old(sack.NumBlocks)
+//@   ensures forall(k, 0, sack.NumBlocks, sbefore(rcvNxt, sack.Blocks[k].End) && (sack.Blocks[k].Start == rcvNxt || sbefore(rcvNxt, sack.Blocks[k].Start)))
+//@   loop 1 invariant 0 <= n && n <= i && i <= sack.NumBlocks && sack.NumBlocks == old(sack.NumBlocks)
+//@   loop 1 invariant forall(k, 0, n, sbefore(rcvNxt, sack.Blocks[k].End) && (sack.Blocks[k].Start == rcvNxt || sbefore(rcvNxt, sack.Blocks[k].Start)))
+//@   modifies sack.Blocks, sack.NumBlocks
